@@ -174,6 +174,11 @@ pub enum Surgery {
     /// standard Macintosh order; only possible up to 385 glyphs) or by a bare version 3.0 header.
     /// Every corpus font has version 2.0 or 3.0.
     PostFormat { v25: bool, variant: u64 },
+    /// Replace GSUB by a small table with `liga` (f i -> f, f f i -> f), `frac` (on the slash) and
+    /// `numr` / `dnom` (on the digits): only three corpus fonts have `frac`, none of them together
+    /// with a Latin ligature, so the fraction path of the shaper never meets a run that a
+    /// ligature shortened. `glyphs` = [f, i, slash, digit0..digit9] as the cmap maps them.
+    InstallFracLiga { glyphs: Vec<u16>, variant: u64 },
     /// Re-pack `hmtx` with only `num_h_metrics` long metrics (glyphs after that take the last
     /// advance and keep their side bearing) and update `hhea`. Every corpus CFF2 font and most
     /// others have numberOfHMetrics == numGlyphs, which hides the compact form from the writers.
